@@ -714,7 +714,9 @@ impl Driver {
         if ver == Ver::V5 {
             self.pad_props(&mut props, 6);
         }
-        Pkt::Publish { ver, dup: false, qos, retain: false, topic, id, props, payload: vec![b'p'; pl] }
+        // (contents dimension: RETAIN travels with the message - first transmission, stored copy, retransmission)
+        let retain = self.r.below(5) == 0;
+        Pkt::Publish { ver, dup: false, qos, retain, topic, id, props, payload: vec![b'p'; pl] }
     }
     fn peer_publish(&mut self) -> Pkt {
         let ver = self.ver();
@@ -740,7 +742,8 @@ impl Driver {
         if ver == Ver::V5 {
             self.pad_props(&mut props, 4);
         }
-        Pkt::Publish { ver, dup, qos, retain: false, topic, id, props, payload: vec![b'q'; 1 + self.r.usize(3)] }
+        let retain = self.r.below(5) == 0;
+        Pkt::Publish { ver, dup, qos, retain, topic, id, props, payload: vec![b'q'; 1 + self.r.usize(3)] }
     }
     fn ack(&mut self, kind: AckKind, id: u32, fail: bool) -> Pkt {
         let ver = self.ver();
@@ -1073,6 +1076,14 @@ impl Driver {
             // a send that must be refused whatever the state: wrong protocol version, or a packet kind
             // this role may never send - carrying a packet id the application holds
             // ... or a packet of this connection's own kind on an id that nobody acquired (refused as invalid, nothing to release)
+            if self.model.status == St::Cd && self.r.below(6) == 0 {
+                // the application continues a QoS 2 exchange it knows from elsewhere: PUBREL on an id it holds
+                if let Some(id) = self.app_id() {
+                    let p = self.ack(AckKind::Pubrel, id, false);
+                    self.send(p);
+                    return;
+                }
+            }
             if self.model.status == St::Cd && self.r.below(4) == 0 {
                 let free = (1u32..=12).find(|i| !self.model.in_use.contains(i)).unwrap_or(0);
                 if free != 0 {
